@@ -11,13 +11,45 @@ import (
 	"fmt"
 	"os"
 	"os/exec"
+	"os/signal"
 	"path/filepath"
 	"sort"
 	"strconv"
 	"strings"
 	"sync"
+	"syscall"
 	"time"
 )
+
+// children started by this process; killed when vcheck itself is told to stop
+var (
+	childMu  sync.Mutex
+	children = map[int]*os.Process{}
+)
+
+func trackChild(p *os.Process, add bool) {
+	childMu.Lock()
+	defer childMu.Unlock()
+	if add {
+		children[p.Pid] = p
+	} else {
+		delete(children, p.Pid)
+	}
+}
+
+func killChildrenOnSignal() {
+	ch := make(chan os.Signal, 1)
+	signal.Notify(ch, syscall.SIGINT, syscall.SIGTERM, syscall.SIGHUP)
+	go func() {
+		<-ch
+		childMu.Lock()
+		for _, p := range children {
+			_ = p.Kill()
+		}
+		childMu.Unlock()
+		os.Exit(2)
+	}()
+}
 
 type violation struct {
 	Sig    string          `json:"sig"`
@@ -183,7 +215,7 @@ func runWorkers(bin, prop, tier, flavour string, conf propConf, scratch, data st
 			cmd.Env = []string{"HOME=" + home, "PATH=/nonexistent", "GOMAXPROCS=1", "TMPDIR=" + wdata,
 				"GORACE=log_path=" + filepath.Join(scratch, fmt.Sprintf("race_%d", i)) + " halt_on_error=0 exitcode=0 history_size=2",
 				"VERIF_RACELOG=" + filepath.Join(scratch, fmt.Sprintf("race_%d", i)),
-				"GOTRACEBACK=single"}
+				"GOTRACEBACK=single", "C04_PART=" + os.Getenv("C04_PART")}
 			var stderr strings.Builder
 			cmd.Stderr = &stderr
 			cmd.Stdout = &stderr
@@ -193,6 +225,8 @@ func runWorkers(bin, prop, tier, flavour string, conf propConf, scratch, data st
 				errs[i] = "start: " + err.Error()
 				return
 			}
+			trackChild(cmd.Process, true)
+			defer trackChild(cmd.Process, false)
 			go func() { done <- cmd.Wait() }()
 			var err error
 			select {
@@ -281,6 +315,7 @@ func main() {
 	if len(os.Args) < 2 {
 		fatal(2, "usage: vcheck <property|warm|instr> <quick|thorough> | vcheck <property> --replay <file>")
 	}
+	killChildrenOnSignal()
 	verifDir = env("VERIF_DIR", verifDir)
 	repoDir = env("VERIF_REPO", repoDir)
 	prop := os.Args[1]
